@@ -166,6 +166,10 @@ Next ==
   /\ LET r == Rec[l] IN
        CASE r.t = "reset" -> DoReset(r)
          [] r.t = "step" -> DoStep(r)
+         [] r.t = "end" /\ r.site \in {"E_End", "E_Stuck"} ->
+              LET vs == JudgeEnd(Adopted(st, r), gh, r.site = "E_Stuck")
+              IN /\ UNCHANGED <<st, gh>>
+                 /\ rep' = [rep EXCEPT !.nverd = @ + Len(vs), !.verdicts = Merge(@, vs, r.run, r.i)]
          [] OTHER -> UNCHANGED <<st, gh, rep>>
 
 Spec == Init /\ [][Next]_vars
